@@ -80,3 +80,9 @@ func VerifUdpSplitConsts() map[string]uint64 {
 		"us_little_endian":  le,
 	}
 }
+
+// VerifGROEnabled reports whether a listener returned by NewListener turned UDP_GRO on.
+func VerifGROEnabled(c Conn) bool {
+	u, ok := c.(*StdConn)
+	return ok && u.groSupported
+}
